@@ -93,18 +93,21 @@ impl Exec {
             }
         }
     }
-    /// a worker other than `me` (the thief)
-    fn other_worker(&self, me: usize) -> usize {
-        if self.pool <= 1 {
-            return me;
+    /// an *idle* worker (the thief): not `me` and not the worker any other execution context
+    /// (overlapped shuttle task) is running on right now - in a real pool a worker index runs
+    /// one task at a time, and code may rely on that (per-thread slots indexed by
+    /// `current_thread_index`). None: every worker is busy, nobody can steal.
+    fn idle_worker(&self, me: usize) -> Option<usize> {
+        let busy: Vec<usize> = {
+            let g = self.workers.lock().unwrap_or_else(|e| e.into_inner());
+            g.iter().filter_map(|(_, st)| st.last().copied()).collect()
+        };
+        let free: Vec<usize> = (0..self.pool).filter(|i| *i != me && !busy.contains(i)).collect();
+        if free.is_empty() {
+            return None;
         }
         let mut g = self.idx_rng.lock().unwrap_or_else(|e| e.into_inner());
-        let k = g.below(self.pool as u64 - 1) as usize;
-        if k >= me {
-            k + 1
-        } else {
-            k
-        }
+        Some(free[g.below(free.len() as u64) as usize])
     }
 
     fn draw(&self) -> JoinOutcome {
@@ -159,19 +162,6 @@ impl SimExec for Exec {
         let top = self.depth.fetch_add(1, Ordering::SeqCst) == 0;
         let inj = top && self.injected;
         let outcome = self.draw();
-        {
-            let mut st = self.stats.lock().unwrap_or_else(|e| e.into_inner());
-            st.joins += 1;
-            match outcome {
-                JoinOutcome::Inline => st.inline += 1,
-                JoinOutcome::StolenLate => st.late += 1,
-                JoinOutcome::StolenEarly => st.early += 1,
-                JoinOutcome::Overlap => st.overlap += 1,
-            }
-            if st.trace.len() < 4096 {
-                st.trace.push(outcome as u8);
-            }
-        }
         struct Dec<'a>(&'a AtomicUsize);
         impl Drop for Dec<'_> {
             fn drop(&mut self) {
@@ -200,7 +190,28 @@ impl SimExec for Exec {
             }
         }
         let _pop = PopCtx(self, fresh_ctx);
-        let thief = if outcome == JoinOutcome::Inline { me } else { self.other_worker(me) };
+        let (outcome, thief) = if outcome == JoinOutcome::Inline {
+            (outcome, me)
+        } else {
+            match self.idle_worker(me) {
+                Some(t) => (outcome, t),
+                // no idle worker: the arm is not stolen after all
+                None => (JoinOutcome::Inline, me),
+            }
+        };
+        {
+            let mut st = self.stats.lock().unwrap_or_else(|e| e.into_inner());
+            st.joins += 1;
+            match outcome {
+                JoinOutcome::Inline => st.inline += 1,
+                JoinOutcome::StolenLate => st.late += 1,
+                JoinOutcome::StolenEarly => st.early += 1,
+                JoinOutcome::Overlap => st.overlap += 1,
+            }
+            if st.trace.len() < 4096 {
+                st.trace.push(outcome as u8);
+            }
+        }
         let this: &Exec = self;
         let mut b_on = |ctx: bool| {
             this.push_worker(thief);
